@@ -32,9 +32,21 @@ def run_jobs(jobs, procs=None):
     if procs <= 1 or len(jobs) <= 1 or os.environ.get("PYVC_SERIAL"):
         return [_worker(j) for j in jobs]
     ctx = mp.get_context("fork")
+    # a job that does not come back (e.g. the executor looping on code that was changed under it) must not hang the check:
+    # after the deadline its obligations are reported as undecided
+    import time
+
+    deadline = time.time() + float(os.environ.get("PYVC_JOB_DEADLINE_S", "2400"))
     with ctx.Pool(procs, maxtasksperchild=8) as pool:
-        # longest jobs first (callers may pass a 4th tuple element as a weight)
-        return pool.map(_worker, jobs, chunksize=1)
+        pending = [(j, pool.apply_async(_worker, (j,))) for j in jobs]
+        out = []
+        for j, ar in pending:
+            try:
+                out.append(ar.get(timeout=max(1.0, deadline - time.time())))
+            except mp.TimeoutError:
+                out.append(("timeout", j, f"no result within {os.environ.get('PYVC_JOB_DEADLINE_S', '2400')} s", {}, 0.0))
+        pool.terminate()
+        return out
 
 
 def collect(chk, results):
@@ -47,6 +59,9 @@ def collect(chk, results):
         chk.notes.setdefault("job_seconds", {})[f"{job[1]}{job[2] or ''}"] = round(secs, 1)
         if status == "fault":
             chk.fault(f"job {job[0]}.{job[1]}{job[2]} crashed: {res[-1500:]}")
+            continue
+        if status == "timeout":
+            chk.undecided(f"{job[0]}.{job[1]}{job[2] or ''}::deadline", f"the job did not finish: {res}")
             continue
         if isinstance(res, Ledger):
             chk.merge(res)
